@@ -284,6 +284,9 @@ impl PersistWal {
             // No surviving entries: just remove the WAL file
             if self.current_file.exists() {
                 fs::remove_file(&self.current_file)?;
+                if let Ok(d) = File::open(&self.wal_dir) {
+                    let _ = d.sync_all();
+                }
             }
             self.entries_written = 0;
             return Ok(());
@@ -311,6 +314,9 @@ impl PersistWal {
         // Atomic rename: replaces old WAL with the new one.
         // On POSIX, rename is atomic - either the old or new file is visible.
         fs::rename(&new_file, &self.current_file)?;
+        if let Ok(d) = File::open(&self.wal_dir) {
+            let _ = d.sync_all();
+        }
 
         self.entries_written = surviving.len();
         Ok(())
